@@ -35,7 +35,7 @@ package fasthttp
 // handleRequest: no file is looked up, opened or created for a path that contains a NUL byte or, after a
 // path rewriter ran, a ".." segment; the file path always comes from pathToFilePath applied to that checked path.
 //@ func fsHandler.handleRequest
-//@   property C23
+//@   property C23 C24
 //@   mode skeleton
 //@   stable h.pathRewrite
 //@   ghost nulIdx int = 0
@@ -44,6 +44,13 @@ package fasthttp
 //@   ghost ddFound bool = false
 //@   ghost fpMade bool = false
 //@   ghost normalized bool = false
+//@   ghost rangeSeen bool = false
+//@   ghost rs int = 0
+//@   ghost re int = 0
+//@   ghost rerr bool = false
+//@   ghost updated bool = false
+//@   ghost crSet bool = false
+//@   ghost tot int = 0
 //@   on call field:pathRewrite -> p:
 //@     effect normalized = false
 //@   on call RequestCtx.Path -> p:
@@ -68,6 +75,24 @@ package fasthttp
 //@     requires[file-path-from-root] fpMade && eq(fp, filePath)
 //@   on call fsHandler.openIndexFile(_, c, fp):
 //@     requires[file-path-from-root] fpMade && eq(fp, filePath)
+//      -- (the ensures of the ParseByteRange hook restates ParseByteRange#ensures[ordered], proved in its own contract)
+//      -- C24: a range request is answered 206 with exactly the parsed range: the reader is positioned on it, the
+//      -- Content-Range header names it and the declared length is its length
+//@   on call ParseByteRange(br, total) -> s0, e0, perr:
+//@     nohavoc
+//@     requires[range-against-file-size] @C24 total == ff.contentLength
+//@     effect rangeSeen = true; rs = s0; re = e0; rerr = (perr != nil); tot = total
+//@     ensures perr == nil ==> 0 <= s0 && s0 <= e0 && e0 < total
+//@   on call byteRangeUpdater.UpdateByteRange(_, a, b) -> uerr:
+//@     requires[reader-gets-parsed-range] @C24 rangeSeen && !rerr && a == rs && b == re
+//@     effect updated = (uerr == nil)
+//@   on call ResponseHeader.SetContentRange(_, a, b, total):
+//@     requires[content-range-is-parsed-range] @C24 updated && a == rs && b == re && total == tot
+//@     effect crSet = true
+//@   on call RequestCtx.SetBodyStream(_, rd, n):
+//@     requires[declared-length-is-range-length] @C24 crSet ==> n == re - rs + 1
+//@   on call RequestCtx.SetStatusCode#2(_, code):
+//@     requires[partial-content-iff-range] @C24 code == (crSet ? StatusPartialContent : StatusOK)
 //@   end
 
 // The built-in rewriters return a piece of the (normalised) request path, never bytes from elsewhere.
